@@ -25,6 +25,7 @@ const char *tab2 =
     // a literal with a raw tab is the first thing behind this comment
     "\t";
 const char tab3 = /* c */ '\t';
+const char *astral = "\U00020BB7 \U0010FFFD \U0001F600 \u00e9 \u20ac";
 unsigned int u1; unsigned u2; long int l1; short int s1; signed int g1;
 #define SQ(x) ((x) * (x))
 #define MAX(x, y) ((x) > (y) ? (x) : (y))
@@ -174,6 +175,36 @@ public class A<T extends Comparable<T>> {
 """,
 }
 EXT = {"C": ".c", "CPP": ".cpp", "OC": ".m", "JAVA": ".java"}
+
+
+def expr_zoo(lang):
+    """comparisons followed by ?: / && / || / , inside every bracket kind, in every context the parenthesis options look at (return,
+    assignment, condition, argument) - compilable; found: 'y ? t[a ? 0 : 1] : 0' was refused with status 70 on the pinned tree"""
+    inner = ["a == b ? 0 : 1", "a < b && b < c", "a != b || c", "(a == b, c)", "!a == b ? c : 0", "a >= b ? (c == a ? 1 : 2) : 3"]
+    br = [("zt[", "]"), ("g(1, ", ")"), ("zt[g(1, ", ")]"), ("g(1, zt[", "])")]
+    if lang == "C":
+        br += [("(int[]){ ", " }[0]"), ("(struct zq){ ", " }.m")]
+        head = "struct zq { int m; };\nextern int zt[8];\nextern int zh(int, int);\n"
+    else:
+        br += [("zq{ ", " }.m"), ("[=] { return ", "; }()"), ("[=](int z) { return z + (", "); }(1)")]
+        head = "struct zq { int m; };\nextern int zt[8];\nextern int zh(int, int);\nextern int g(int, int);\n"
+    ctxs = ["if (c) return %s;", "x = %s;", "x = 1 + %s + 2;", "if (%s) x = 1;", "x = y ? %s : 0;", "while (%s) break;", "zh(%s, 1);", "int d%d = %s;", "x += %s;"]
+    out = [head + "int ez(int x, int y)", "{"]
+    n = 0
+    for k, e in enumerate(inner):
+        for j, (o, c_) in enumerate(br):
+            for i, cx in enumerate(ctxs):
+                if (i + j + k) % 3:
+                    continue            # a third of the product: every context, bracket and expression with every other in some line
+                n += 1
+                ex = o + e + c_
+                out.append("    " + (cx % ((n, ex) if "%d" in cx else ex)))
+    out += ["    return x;", "}"]
+    return "\n".join(out) + "\n"
+
+
+PROG["C"] += expr_zoo("C")
+PROG["CPP"] += expr_zoo("CPP")
 
 
 def compile_id(src, lang, tmp, tag):
